@@ -515,6 +515,17 @@ def trailing(ctx, P):
             ctx.check(P + ':trailing:%s' % r['name'], 'R-dom', 'Message::%s propagates the trailing-data check' % r['name'], bool(gs), function=b.path,
                       guards=[site(b, g) for g, _ in gs])
     ctx.floor(P + ':trailing:floor', 'Message Read/BufRead methods calling check_trailing_data', n, 3)
+    # a 0-octet result of read() means end of stream only if octets were asked for: the end-of-stream action of Message::read (which
+    # parses whatever follows in the source as trailing packets) must not be triggered by a read into an empty buffer
+    for p, r in ctx.f.bodies.items():
+        if r.get('impl_self', '').startswith('composed::message::types::Message<') and r.get('impl_trait') == 'std::io::Read' and r.get('name') == 'read':
+            b = ctx.wrap(r)
+            cs = call_blocks(b, r'check_trailing_data$')
+            gs = [g for g, _ in guard_switches(b, cs, [r'param:2$', r'call:.*(is_empty|::len)$|len$'])] if cs else []
+            ok, wit = must_pass(b, cs, gs) if gs else (False, None)
+            ctx.check(P + ':trailing:read:not-on-empty-request', 'R-dom', 'Message::read runs its end-of-stream check only when a non-empty buffer was offered (read(&mut []) returning 0 is not the end)',
+                      ok, function=b.path, site=site(b, cs[0]) if cs else None,
+                      missing=None if ok else '`if read == 0 { check_trailing_data() }` also fires for an empty `buf`: mid-stream it parses message data as trailing packets and fails with "unexpected trailing bytes found"')
     # sibling rule: all three consumer paths of Message (read, read_to_end, fill_buf) carry the check
     have = set()
     for p, r in ctx.f.bodies.items():
